@@ -19,10 +19,35 @@ QU, QM = Sym('DNSQuestionType.QU'), Sym('DNSQuestionType.QM')
 
 
 def _known_answer_comp(f: FuncInfo) -> Optional[ast.AST]:
+    """The comprehension that selects the known answers from the cache lookup (the lookup may sit in a local).
+    Returned with the lookup call substituted for such a local."""
+    from .common import expand
+
     for n in walk_local_ordered(f.node):
-        if isinstance(n, (ast.SetComp, ast.ListComp)) and isinstance(n.generators[0].iter, ast.Call) and call_name(n.generators[0].iter) in ('get_all_by_details', 'async_all_by_details'):
-            return n
+        if isinstance(n, (ast.SetComp, ast.ListComp)):
+            it = expand(f, n.generators[0].iter)
+            if isinstance(it, ast.Call) and call_name(it) in ('get_all_by_details', 'async_all_by_details'):
+                import copy
+
+                m = copy.copy(n)
+                g0 = copy.copy(n.generators[0])
+                g0.iter = it
+                m.generators = [g0] + list(n.generators[1:])
+                m._verif_orig = n  # type: ignore[attr-defined]
+                return m
     return None
+
+
+def _is_known_answer_set(f: FuncInfo, e: ast.AST) -> bool:
+    """Is `e` (an argument) the known-answer selection of f, directly or through a single-definition local?"""
+    from .common import expand
+
+    comp = _known_answer_comp(f)
+    if comp is None:
+        return False
+    orig = getattr(comp, '_verif_orig', comp)
+    x = expand(f, e)
+    return norm(x) == norm(expand(f, orig)) or norm(x) == norm(orig)
 
 
 @rule('C13.KNOWN', 'D', expect_min=8)
@@ -184,6 +209,29 @@ def history(ctx: Any) -> List[Ob]:
             want = ('ASK',) if qu else (('CONSULT',) if sup else ('CONSULT', 'ASK', 'RECORD'))
             got_n = {tuple(sorted(t)) for t in got}
             obs.append(ob(R, g, f'browser: QU={qu} history suppresses={sup}', f'effects {sorted(want)}', got_n == {tuple(sorted(want))}, f'got {sorted(got)} undecided {und}'))
+    # what the history is consulted with, and what is recorded, is the set this instance would list itself (non-stale records)
+    for bf in (f, g):
+        for c in walk_local_ordered(bf.node):
+            if isinstance(c, ast.Call) and call_name(c) in ('suppresses', 'add_question_at_time') and isinstance(c.func, ast.Attribute) and 'history' in norm(c.func.value) and len(c.args) == 3:
+                obs.append(ob(R, bf, c, f'{call_name(c)}: the known-answer set handed to the history is the selection that is listed in the query (cached records with more than half their TTL left)', _is_known_answer_set(bf, c.args[2]), f'`{norm(c.args[2])[:60]}` is not the known-answer selection'))
+    # responder: every heard QM question that it can answer is remembered -- also when the known answers leave nothing to send
+    ar0 = prog.func('zeroconf._handlers.query_handler.QueryHandler.async_response')
+    cfg_ar = cfg_of(ar0.node)
+    sl = [n for n in cfg_ar.nodes if n.kind == 'for' and isinstance(n.ast.iter, ast.Name) and any(isinstance(c, ast.Call) and call_name(c) == '_answer_question' for c in ast.walk(n.ast))]
+    if len(sl) != 1:
+        raise AnalysisError('anchor vanished: per-question loop of async_response')
+
+    def eff_r(node: Any, evl: Any) -> List[Any]:
+        return ['RECORD' for c in fd.node_calls(node, evl) if call_name(c) == 'add_question_at_time']
+
+    for qu in (True, False):
+        for empty in (True, False):
+            for uc in (True, False):
+                atoms = {'.unique': qu, '._answer_question()': {} if empty else {'r': set()}, ar0.params[2]: uc}
+                oc, und = fd.run_paths(prog, ar0.module, cfg_ar, atoms, eff_r, start=sl[0], stop=lambda n: n is sl[0], loop_bound=1, for_iter=lambda n, e: True)
+                got = {strip_ret(t) for t in oc}
+                want = () if qu else ('RECORD',)
+                obs.append(ob(R, ar0, f'heard question: QU={qu}, nothing left to answer={empty}, unicast source={uc}', f'history effects {want}', got == {want}, f'got {sorted(got)}'))
     # history semantics
     h = prog.func('zeroconf._history.QuestionHistory.suppresses')
     k = prog.const('zeroconf.const', '_DUPLICATE_QUESTION_INTERVAL')
